@@ -482,15 +482,20 @@ open TonVerif TonVerif.Model TonVerif.Model.Vm TonVerif.Spec.Tlb TonVerif.Drv To
 def rv (c : RCell) : Bits × List RCell := (c.bits, c.refs)
 def optInt (s : String) : Option (Option Int) := if s == "-" then some none else s.toInt?.map some
 def optKey (s : String) : Option (Option Bytes) := if s == "-" then some none else if s == "e" then some (some []) else (hexArg s).map some
+/-- the library builds the object with the class constructor and then calls `serialize`: so does the regenerated side -/
 def genSer (w : Wr) : Option RCell :=
   match w with
   | .hu h => Message.serializeHashUpd rops h
-  | .v3 w => (WalletV3Data_serialize mkCell w).map (·.cell)
-  | .v4 w => (WalletV4Data_serialize mkCell w).map (·.cell)
-  | .hl w => (HighloadWalletData_serialize mkCell w).map (·.cell)
-  | .nft n => (NftItemData_serialize mkCell n).map (·.cell)
-  | .fees f => (NftItemSaleFees_serialize (R := RCell) mkCell f).map (·.cell)
-  | .sale s => (NftItemSaleData_serialize (R := RCell) mkCell s).map (·.cell)
+  | .v3 w => (WalletV3Data_init w.seqno (some w.walletId) (some w.publicKey)).bind fun o => (WalletV3Data_serialize mkCell o).map (·.cell)
+  | .v4 w => (WalletV4Data_init w.seqno (some w.walletId) (some w.publicKey) w.plugins).bind fun o => (WalletV4Data_serialize mkCell o).map (·.cell)
+  | .hl w => (HighloadWalletData_init (some w.walletId) w.lastCleaned (some w.publicKey) w.oldQueries).bind fun o =>
+      (HighloadWalletData_serialize mkCell o).map (·.cell)
+  | .nft n => (NftItemData_init n.index n.collection n.owner n.content).bind fun o => (NftItemData_serialize mkCell o).map (·.cell)
+  | .fees f => (NftItemSaleFees_init f.marketplaceFeeAddress f.marketplaceFee f.royaltyAddress f.royaltyAmount).bind fun o =>
+      (NftItemSaleFees_serialize (R := RCell) mkCell o).map (·.cell)
+  | .sale s => (NftItemSaleFees_init s.fees.marketplaceFeeAddress s.fees.marketplaceFee s.fees.royaltyAddress s.fees.royaltyAmount).bind fun f =>
+      (NftItemSaleData_init s.isComplete s.createdAt s.marketplace s.nft s.nftOwner s.fullPrice f s.canDeployByExternal).bind fun o =>
+      (NftItemSaleData_serialize (R := RCell) mkCell o).map (·.cell)
 def genPar (c : RCell) (kind : String) : Option String :=
   let s : Slice RCell := ⟨c.bits, c.refs⟩
   match kind with
@@ -528,7 +533,7 @@ def genLine (l : String) : String :=
   | ["wser", dag, w] => withDag dag fun ctx => do pure (showCell (genSer (← pWr ctx w)))
   | ["wpar", dag, n, k] => withDag dag fun ctx => do genPar (← node ctx n) k
   | ["wmser", dag, mode, m] => withDag dag fun ctx => do
-      pure (showCell ((WalletMessage_serialize mkCell ⟨← mode.toInt?, ← pMsg ctx m⟩).map (·.cell)))
+      pure (showCell ((WalletMessage_init (← mode.toInt?) (← pMsg ctx m)).bind fun o => (WalletMessage_serialize mkCell o).map (·.cell)))
   | ["winit", kind, a, b, k] => (genInit kind a b k).getD "bad-op"
   | _ => "bad-op"
 def modLine (l : String) : String :=
